@@ -345,6 +345,11 @@ def r8_bins_size_strand(ctx):
 from ..through_time import make_rule as _mk_tt
 _through_time = _mk_tt("C10")
 
+def _every_chromosome_visited(ctx):
+    from .c12 import r1_pending_group, r2_every_contig_gets_a_buffer
+    r1_pending_group(ctx)
+    r2_every_contig_gets_a_buffer(ctx)   # streamed genome-wide results cover every chromosome, also trailing ones without entries
+
 RULES = [
     ("C10-R1", r1_lockstep),
     ("C10-R2", r2_global_taint),
@@ -355,4 +360,5 @@ RULES = [
     ("C10-R7", r7_label_order),
     ("C10-R8", r8_bins_size_strand),
     ("C10-T1", _through_time),
+    ("C10-R9", _every_chromosome_visited),
 ]
